@@ -1717,7 +1717,8 @@ def gen_sim(rng, tier, metrics=None, deterministic=False):
     if any(b["lp"][0] == "popularity" for b in bandits):
         rs = [abs(r) for r in rs]
     return {"arms": arms, "ds": ds, "rs": rs, "cx": cx, "bandits": bandits, "test_size": test_size, "is_ordered": rng.random() < 0.5,
-            "batch_size": min(bs, n_test), "is_quick": rng.random() < 0.4, "seed": rng.randint(0, 10**6)}
+            "batch_size": min(bs, n_test), "is_quick": rng.random() < 0.4, "seed": rng.randint(0, 10**6),
+            "container": rng.choice([0, 0, 0, 1, 2, 3, 4])}
 
 def build_sim_bandits(t):
     out = []
@@ -1736,13 +1737,38 @@ def MAB_build(arms, b):
 def is_context_free(b):
     return b["np"] is None and b["lp"][0] not in gen.LIN_KINDS
 
+def sim_inputs(t, any_ctx):
+    """the Simulator's data arguments in the container t["container"] names (C18 applies to the Simulator as well):
+       0 lists; 1 numpy arrays (C order); 2 numpy arrays, Fortran-ordered contexts; 3 pandas Series / DataFrame;
+       4 numpy, contexts a non-contiguous strided view"""
+    import pandas as pd
+    k = t.get("container", 0)
+    ds, rs = list(t["ds"]), list(t["rs"])
+    cx = [list(r) for r in t["cx"]] if any_ctx else None
+    if k == 0:
+        return ds, rs, cx
+    if k == 3:
+        return pd.Series(ds), pd.Series([float(x) for x in rs]), (pd.DataFrame(np.asarray(cx, dtype=float)) if cx is not None else None)
+    a_ds, a_rs = np.asarray(ds), np.asarray(rs, dtype=float)
+    if cx is None:
+        return a_ds, a_rs, None
+    a = np.asarray(cx, dtype=float)
+    if k == 2:
+        a = np.asfortranarray(a)
+    elif k == 4:
+        wide = np.zeros((a.shape[0], 2 * a.shape[1]), dtype=float)
+        wide[:, ::2] = a
+        a = wide[:, ::2]
+    return a_ds, a_rs, a
+
 def run_simulator(t):
     from mabwiser.simulator import Simulator
     quiet_logging()
     bandits = build_sim_bandits(t)
     originals = [(n, copy.deepcopy(m)) for n, m in bandits]
     any_ctx = any(not is_context_free(b) for b in t["bandits"])
-    sim = Simulator(bandits, list(t["ds"]), list(t["rs"]), [list(r) for r in t["cx"]] if any_ctx else None,
+    in_ds, in_rs, in_cx = sim_inputs(t, any_ctx)
+    sim = Simulator(bandits, in_ds, in_rs, in_cx,
                     test_size=t["test_size"], is_ordered=t["is_ordered"], batch_size=t["batch_size"], seed=t["seed"], is_quick=t["is_quick"])
     if t.get("force_chunk"):
         # exercise the chunked branches (normally taken only when the distance list would exceed 1 GB) on small data:
